@@ -297,6 +297,16 @@ ASYM = [
     ("[CH:1]=[CH:2]>>[C:1][CH2:2]", ["CC=CO"]),
     ("[NH:1][NH:2]>>[N:1].[NH2:2]", ["CNNCC"]),
 ]
+# partial=True routes the search through PartialMatcher; its WL host-orbit pruning (prune_auto) merged matches that hit the
+# same multiset of host WL classes - e.g. both orientations of an unsymmetrical rule, or a C-C bond of cyclopropane and one
+# of cyclohexane (all CH2 carbons share one WL colour) - and lost reactions (fixed in /repo, see known_findings.d/C11.json)
+PARTIAL = [
+    ("[CH2:1][CH2:2].[BrH:3]>>[CH2:1][Br:3].[CH3:2]", ["CCCO.Br", "C1CC1.C1CCCCC1.Br"]),
+    ("[CH2:1][CH2:2]>>[CH2:1].[CH2:2]", ["C1CC1.C1CCCCC1", "CCCO"]),
+    ("[CH2:1][CH2:2].[H:3][H:4]>>[CH2:1][H:3].[CH2:2][H:4]", ["C1CC1.C1CCCCC1"]),
+    ("[CH2:1][CH2:2]>>[CH2+:1].[CH2-:2]", ["CCCO"]),
+    ("[CH3:1][Br:2].[BH2:3][CH3:4]>>[CH3:1][CH3:4].[BH2:3][Br:2]", ["CC(C)CBr.CB(O)O"]),
+]
 OPTS = [{}, {"strategy": "comp"}, {"strategy": "bt"}, {"automorphism": True}, {"explicit_h": False, "implicit_temp": True}]
 
 
@@ -311,6 +321,11 @@ def hand_cases(tier):
                             continue
                         out.append(dict(kind="prune", name="hand%d/%s/%s/%d/%d" % (ti, "core" if core else "full", "bwd" if inv else "fwd", si, oi),
                                         tpl=tpl, core=core, sub=sub, invert=inv, opts=dict(o)))
+    for ti, (tpl, subs) in enumerate(PARTIAL):
+        for si, sub in enumerate(subs):
+            for core in (True, False):
+                out.append(dict(kind="prune", name="partial%d/%s/fwd/%d" % (ti, "core" if core else "full", si),
+                                tpl=tpl, core=core, sub=sub, invert=False, opts={"partial": True}))
     for ti, (tpl, subs) in enumerate(ASYM):
         for core in (True, False):
             for si, sub in enumerate(subs):
